@@ -1360,3 +1360,4 @@ mut("gc_before_release_inputs", ["C11"], "ORD-18", patch="gc_before_release_inpu
 mut("replay_skips_short_records", ["C01", "C02", "C06"], "ORD-6|db::DB::recover_wal_records|every-record-applied", patch="replay_skips_short_records.diff")
 mut("batch_count_decoded_as_u8", ["C01", "C02", "C08"], "AGR-2", patch="batch_count_decoded_as_u8.diff")
 mut("block_handle_offset_u32", ["C13", "C01"], "AGR-2", file="src/tables/block_handle.rs", old="value.offset.encode_var_vec()", new="(value.offset as u32).encode_var_vec()", suite=False)
+mut("revert_D17", ["C15", "C08"], "ERR-3", patch="revert_D17_merge_seek_swallows_child_error.diff", note="MergingIterator::seek* return Ok although a child could not be positioned")
